@@ -35,6 +35,12 @@ RULE = ('A: random compile-shaped workflow plans (<= 10 actions in a random DAG 
         'predicates: filters, joins, unions, swaps, @Ground on ~65%, up to 2 deep '
         'recursions @Recursive(P, 21..44), self or mutual, which compile to @Iteration '
         'groups of 2 or 4 statements with 9-21 repetitions), 1-4 requested predicates; '
+        'in 45% of these programs a block of 2-3 grounded producers, one non-injectable '
+        'not grounded helper over each (distinct / distinct self-join / two rules: a WITH '
+        'table inside every statement reading it), 2-3 mostly grounded readers each reading '
+        'two different helpers, and a sink over the readers (drawn names: a reader sorts '
+        'before or after the producers behind its helpers); plan level: every table a '
+        "statement's SQL reads is written by an ancestor in the recorded dependency edges; "
         '30% hand-written @Iteration programs: 1-3 counter loops over @Ground predicates '
         '(seed, 2 or 4 members in the default two-halves mode or 3 in mode "diamond", last '
         'member written back with @Ground(Last, Seed), repetitions 2-5), a later loop '
